@@ -4,7 +4,7 @@ from vlib import common, decsuite, picgen, h263spec as S
 from vlib.common import hexs
 from vlib.decsuite import D, Sop, parse_tok, cls_kind
 
-THEOREMS = ["C15_following_bits_irrelevant", "C15_padding_is_skipped", "C15_two_pictures_one_reader", "C15_header_frame", "C15_macroblock_count_bound", "C15_start_code_window"]
+THEOREMS = ["C15_following_bits_irrelevant", "C15_source_following_bits_irrelevant", "C15_padding_is_skipped", "C15_two_pictures_one_reader", "C15_header_frame", "C15_macroblock_count_bound", "C15_start_code_window"]
 BRIDGES = ["BridgePLoop", "BridgePNextLoop", "BridgePNext", "BridgePReach"]
 
 
@@ -61,7 +61,8 @@ def pic_of(tok):
 
 def run(ctx):
     thorough = ctx.tier == "thorough"
-    broken = common.proof_step(ctx, THEOREMS, BRIDGES, allowed_axioms=common.REALS_AXIOMS)
+    # proofs.FloatCeil evaluates Flocq on all 65 536 u16 values inside the kernel; coqchk's VM-less reduction would take hours
+    broken = common.proof_step(ctx, THEOREMS, BRIDGES, allowed_axioms=common.REALS_AXIOMS, coqchk_admit=("proofs.FloatCeil",))
     err = common.ensure_runners(ctx)
     if err:
         ctx.violation({"kind": "build", "names": "harness build failed", "log": err[-2000:]}, "harness does not build", found_input=False)
